@@ -385,7 +385,7 @@ theorem heapify_post_size (s : Store P) (i : Nat) : Post (MaxQ.heapify s i) (fun
 /-- the `for` loop of `heap_build`, for any body that behaves like `heapify(j)` on stores of size `≤ n` -/
 theorem pqHeapBuild_for (n : Nat) (body : Nat → St P → R (St P × Flow P))
     (hbody : ∀ j (st : St P), st.s.size = n → body j st =
-      (fun s' => ({ s := s', n := upd st.n 0 j, p := st.p }, Flow.normal)) <$> MaxQ.heapify st.s j) :
+      (fun s' => ({ st with s := s', n := upd st.n 0 j }, Flow.normal)) <$> MaxQ.heapify st.s j) :
     ∀ (h : Nat) (st : St P), st.s.size = n →
     Agrees (forDown body h st) (MaxQ.heapBuildLoop st.s h) (fun st' s' => st'.s = s') := by
   intro h
